@@ -6,7 +6,7 @@ WT=/tmp/repo_clean
 git -C $WT checkout -q -- . ; git -C $WT checkout -q --detach $(git -C /repo rev-parse HEAD) 2>/dev/null
 git -C $WT apply /verif/seeded/$S/patch.diff || { echo "apply failed"; exit 2; }
 for p in "$@"; do
-  VERIF_REPO=$WT /verif/check $p > /tmp/_try.out 2>&1; rc=$?
+  VERIF_EVIDENCE_DIR=/tmp/ev_scratch VERIF_REPO=$WT /verif/check $p > /tmp/_try.out 2>&1; rc=$?
   echo "== seed $S check $p exit=$rc"
   grep -E "^VIOLATION|^ANALYSIS-ERROR|^KNOWN" /tmp/_try.out | head -${MAXL:-6}
   [ -n "$VERBOSE" ] && cat /tmp/_try.out
